@@ -10,7 +10,7 @@ REGISTRY = []
 
 class Harness:
     def __init__(self, name, fn, props, backend='native', desc='', functions=(), replay=None, assumptions=(),
-                 kind='proof', max_paths=20000, timeout_s=None):
+                 kind='proof', max_paths=20000, timeout_s=None, fallback=None):
         self.name = name
         self.fn = fn
         self.props = list(props)
@@ -22,6 +22,10 @@ class Harness:
         self.kind = kind                      # 'proof' | 'bounded'
         self.max_paths = max_paths
         self.timeout_s = timeout_s
+        # regex of bounded stand-in harnesses that decide the same clauses without this harness's loop contract: when ONLY
+        # loop-contract obligations (invariant entry/preservation, variant) are refuted here and the stand-ins pass, the verdict
+        # is 'undecided - loop contract out of date', not a violation (DESIGN 8.9)
+        self.fallback = fallback
         self.module = fn.__module__
 
 
